@@ -196,6 +196,12 @@ def r3_changes_notify(report, repo):
                            repo.func(TS, 'TestState.running_phase_context'),
                            assigns('self.running_phase_state'),
                            'the running phase')
+  k = _followed_by_notify(
+      report, rule, repo.func(TS, 'TestState.running_phase_context'),
+      lambda node: any(isinstance(s, ast.Call) and
+                       last_attr(s) == 'add_phase_record'
+                       for s in node.subnodes()), 'the phase records')
+  report.expect_instances(rule, k, 1, 'phase record appends in the context')
   n += _followed_by_notify(report, rule,
                            repo.func(TS, 'TestState.mark_test_started'),
                            assigns('self.test_record.start_time_millis'),
@@ -364,3 +370,7 @@ def run(report, repo):
   report.guard(r2_notify, report, repo)
   report.guard(r3_changes_notify, report, repo)
   report.guard(r4_wait_for_plug_update, report, repo)
+  # the dirty-measurement set is swapped before the refresh loop, so a value
+  # set concurrently keeps its dirty mark (shared C10-R5)
+  from sa.rules import c10  # pylint: disable=g-import-not-at-top
+  report.guard(c10.r5_phase_state, report, repo, rule='C18-R5')
